@@ -37,23 +37,25 @@ def L2(fn, p=1, d=0, **kw):
     return Z(fn, preempt=p, delays=d, race=True, **kw)
 
 
-_cmp_q = dict(params={"depth": 2, "execs": 2, "max_inv": 3, "max_retries": 1, "handles": 2}, native=True, time_limit_s=900,
+_cmp_q = dict(params={"depth": 2, "execs": 2, "max_inv": 3, "max_retries": 1, "handles": 3, "via_attempts": 0}, native=True, time_limit_s=900,
               note="every ordered composition (with repetition) of depth<=2 of {retry,breaker,fallback,cache,bulkhead,limiter,timeout}; 2 successive executions; <=3 invocations per execution; maxRetries<=1; results symbolic")
 _cmp_t = dict(params={"depth": 3, "execs": 2, "max_inv": 3, "max_retries": 1, "handles": 2}, native=True, time_limit_s=3000,
               note="every ordered composition of depth<=3; 2 executions; <=3 invocations; maxRetries<=1")
 _ret_q = dict(params={"execs": 2, "max_inv": 4, "max_retries": 2, "unlimited": 1}, native=True, note="retry alone: maxRetries in {-1,0,1,2}, all handle/abort/ReturnLastFailure configs, scripts<=4 per execution, 2 successive executions")
-_ret_t = dict(params={"execs": 2, "max_inv": 6, "max_retries": 4, "unlimited": 1}, native=True, time_limit_s=3000, note="retry alone: maxRetries in {-1..4}, scripts<=6, 2 successive executions")
+_ret_q2 = dict(params={"execs": 1, "max_inv": 3, "max_retries": 2, "unlimited": 1, "via_attempts": 1, "delay_fn": 1}, native=True, note="retry alone, configured through WithMaxAttempts or WithMaxRetries, with or without a delay function that records what it is shown; scripts<=3")
+_ret_t = dict(params={"execs": 2, "max_inv": 6, "max_retries": 4, "unlimited": 1, "via_attempts": 1, "delay_fn": 1}, native=True, time_limit_s=3000, note="retry alone: maxRetries in {-1..4}, scripts<=6, 2 successive executions")
 _retn = dict(params={"execs": 1, "max_inv": 4, "max_retries": 2}, native=True, note="retry directly under/over each other policy kind; scripts<=4")
 _fb_q = dict(params={"execs": 2, "max_inv": 3, "max_retries": 1}, native=True, note="fallback kinds x handle conditions x inner {none, each policy kind}; 2 executions")
 _ca_q = dict(params={"execs": 2, "max_inv": 2, "max_retries": 1, "handles": 3}, native=True, note="cache x {none,retry,breaker,bulkhead,cache} inner; configured/context/non-string keys; symbolic prefilled content; 2 executions")
 
 PROPS["C01"] = {"quick": [Z("ZZ_C01_Compose", labels=["nesting:"], **_cmp_q), L2("ZZ_S07e_TimeoutOutside", 1, labels=["nesting:"], note="Timeout(T)(Bulkhead|Breaker(fn sleeping d)), T,d symbolic: the inner policy post-processes the function's outcome also when the timeout fires; P=1")],
-                "thorough": [Z("ZZ_C01_Compose", labels=["nesting:"], **_cmp_t), L2("ZZ_S07e_TimeoutOutside", 2, 1, labels=["nesting:"], note="P=2, 1 delay injection")],
+                "thorough": [Z("ZZ_C01_Compose", labels=["nesting:"], **_cmp_t), L2("ZZ_S07e_TimeoutOutside", 2, labels=["nesting:"], note="P=2")],
                 "assumptions": ["hedge policy and firing timeouts/blocking waits are covered per policy (C06-C09), not inside the sequential composition", "unlimited retries only where every attempt reaches the function"]}
-PROPS["C02"] = {"quick": [Z("ZZ_C02_Retry", labels=["nesting:", "stats:"], **_ret_q), Z("ZZ_C02_RetryNested", labels=["nesting:"], **_retn)],
+PROPS["C02"] = {"quick": [Z("ZZ_C02_Retry", labels=["nesting:", "stats:"], **_ret_q), Z("ZZ_C02_Retry", labels=["nesting:", "stats:"], **_ret_q2), Z("ZZ_C02_RetryNested", labels=["nesting:"], **_retn)],
                 "thorough": [Z("ZZ_C02_Retry", labels=["nesting:", "stats:"], **_ret_t), Z("ZZ_C02_RetryNested", labels=["nesting:"], **_retn)],
                 "assumptions": ["abort-matching outcome on the exhausting attempt: the implementation's choice (ExceededError unless ReturnLastFailure) is accepted, the statement does not decide it"]}
-PROPS["C10"] = {"quick": [Z("ZZ_C10_Fallback", labels=["fallback:", "nesting:"], **_fb_q)], "thorough": [Z("ZZ_C10_Fallback", labels=["fallback:", "nesting:"], **_fb_q)]}
+PROPS["C10"] = {"quick": [Z("ZZ_C10_Fallback", labels=["fallback:", "nesting:"], **_fb_q), L2("ZZ_S07c_TimeoutFallback", 1, labels=["fallback:"], note="fallback function running while an enclosing Timeout fires: keeps seeing the failed outcome, applied once; P=1")],
+                "thorough": [Z("ZZ_C10_Fallback", labels=["fallback:", "nesting:"], **_fb_q), L2("ZZ_S07c_TimeoutFallback", 2, labels=["fallback:"], note="P=2")]}
 PROPS["C11"] = {"quick": [Z("ZZ_C11_Cache", labels=["cache:", "nesting:"], **_ca_q)], "thorough": [Z("ZZ_C11_Cache", labels=["cache:", "nesting:"], **_ca_q)]}
 PROPS["C12"] = {
     "quick": [J("policy", "ZZ_H12a_IsFailure", native=True, params={"max_regs": 3}, note="every order/subset of <=3 handle registrations x 11 error shapes x symbolic results"),
@@ -68,7 +70,8 @@ PROPS["C16"] = {"quick": [Z("ZZ_C01_Compose", labels=["events:"], **_cmp_q1), L2
                           L2("ZZ_S07a_Timeout", 2, labels=["timeout: listener"], note="OnTimeoutExceeded exactly when the timeout result wins; P=2")], "thorough": [Z("ZZ_C01_Compose", labels=["events:"], **_cmp_t)],
                 "assumptions": ["sequential executions; hedge/timeout/bulkhead-wait events under concurrency are asserted in the Layer-2 scenarios"]}
 PROPS["C17"] = {"quick": [Z("ZZ_C01_Compose", labels=["stats:"], **_cmp_q1), L2("ZZ_S09a_Hedge", 1, params={"max_hedges": 1}, labels=["stats:"], note="overlapping hedge attempts: Attempts/Hedges/IsHedge inside each attempt; P=1"),
-                          L2("ZZ_S17b_RetryHedgeStats", 1, labels=["stats:"], note="Retry(Hedge(fn)): Attempts = 1+Retries+Hedges in OnRetry/OnDone; P=1")], "thorough": [Z("ZZ_C01_Compose", labels=["stats:"], **_cmp_t)],
+                          L2("ZZ_S17b_RetryHedgeStats", 1, labels=["stats:"], note="Retry(Hedge(fn)): Attempts = 1+Retries+Hedges in OnRetry/OnDone; P=1"),
+                          Z("ZZ_C02_Retry", labels=["stats:"], **_ret_q2)], "thorough": [Z("ZZ_C01_Compose", labels=["stats:"], **_cmp_t)],
                 "assumptions": ["start/elapsed time monotonicity follows from the virtual clock being non-decreasing; overlapping hedges are asserted in the hedge scenario (C09)"]}
 
 
@@ -88,12 +91,14 @@ PROPS["C03"] = {
     "quick": [
         J("circuitbreaker", "ZZ_H03a_RingStep", solver="z3", native=True, params={"max_ring": 6}, note="inductive ring step, capacity 1..6, arbitrary bits/head/occupancy under Inv_c; real bitset package interpreted"),
         J("circuitbreaker", "ZZ_H03c_TimedStep", solver=INT, native=True, params={"bucket_base": 1, "bucket_cfgs": 2}, note="inductive time-bucket step; bucketNanos in {7,100}; head on grid {0,10,10^6}+ring position; arbitrary counts<2^16; t symbolic <2^47"),
-        J("circuitbreaker", "ZZ_H03g_History", solver=INT, native=True, params={"ops": 3}, time_limit_s=900, note="bounded history (3 ops) through the public API vs reference machine; 6 configurations; symbolic delay/instants (count-based), boundary grid (time-based)"),
+        J("circuitbreaker", "ZZ_H03b_RateLemma", solver=FPS, native=True, params={"max_n": 8}, note="failureRate/successRate of both stats types = rounded percentage for all 0<=x<=n<=8 (FP division of symbolic ints)"),
+        J("circuitbreaker", "ZZ_H03g_History", solver=INT, native=True, params={"ops": 3}, time_limit_s=900, note="bounded history (3 ops) through the public API vs reference machine; 7 configurations (count, ratio, success-threshold, period-count, period-rate); symbolic delay/instants (count-based), boundary grid (time-based)"),
     ],
     "thorough": [
         J("circuitbreaker", "ZZ_H03a_RingStep", solver="z3", native=True, params={"max_ring": 12}, time_limit_s=1500, note="inductive ring step, capacity 1..12"),
         J("circuitbreaker", "ZZ_H03c_TimedStep", solver=INT, native=True, time_limit_s=1500, note="inductive time-bucket step; bucketNanos in {1,7,100,10^8,6*10^9}"),
-        J("circuitbreaker", "ZZ_H03g_History", solver=INT, native=True, params={"ops": 4}, time_limit_s=3000, note="bounded history (4 ops) vs reference machine; 6 configurations"),
+        J("circuitbreaker", "ZZ_H03b_RateLemma", solver=FPS, native=True, params={"max_n": 32}, time_limit_s=3000, qtimeout_s=300, note="rate lemma for n<=32"),
+        J("circuitbreaker", "ZZ_H03g_History", solver=INT, native=True, params={"ops": 4}, time_limit_s=3000, note="bounded history (4 ops) vs reference machine; 7 configurations (count, ratio, success-threshold, period-count, period-rate)"),
     ],
     "assumptions": ["clock non-decreasing", "thresholding period divisible by 10", "ring capacity <= 12 (one bitset word)", "bucket counts < 2^16", "record calls in half-open state are preceded by a permit (protocol use)"],
 }
@@ -105,8 +110,8 @@ PROPS["C07"] = {
               L2("ZZ_S07b_RetryTimeout", 1, note="Retry(max 1)(Timeout(T)(fn)): T,d1,d2 symbolic; P=1"),
               L2("ZZ_S07c_TimeoutFallback", 1, note="Timeout(Fallback(fn)) and Fallback(Timeout(fn)), symbolic fn and fallback durations; P=1"),
               L2("ZZ_S07d_RetryTimeoutCtx", 1, note="Retry(Timeout(fn)) + caller cancel at symbolic instant (tie d1=T excluded): ErrExceeded only if the last attempt's Timeout fired; P=1")],
-    "thorough": [L2("ZZ_S07a_Timeout", 3, 1, note="P=3, 1 delay injection"), L2("ZZ_S07b_RetryTimeout", 2, 1, time_limit_s=2000, note="P=2, 1 delay injection"),
-                 L2("ZZ_S07c_TimeoutFallback", 2, 1, time_limit_s=2000, note="P=2, 1 delay injection")],
+    "thorough": [L2("ZZ_S07a_Timeout", 3, note="P=3"), L2("ZZ_S07b_RetryTimeout", 2, time_limit_s=2000, note="P=2"),
+                 L2("ZZ_S07c_TimeoutFallback", 2, time_limit_s=2000, note="P=2")],
     "labels": ["timeout:", "retry:", "fallback:", "cancel:"],
 }
 PROPS["C06"] = {
@@ -117,8 +122,9 @@ PROPS["C06"] = {
 }
 PROPS["C09"] = {
     "quick": [L2("ZZ_S09a_Hedge", 1, params={"max_hedges": 1}, labels=["hedge:", "stats:", "events:"], note="maxHedges=1, D,d0,d1 symbolic<2^30, cancel-on-any / cancel-on-first-only; P=1"),
-              L2("ZZ_S09a_Hedge", 0, params={"max_hedges": 2}, labels=["hedge:", "stats:", "events:"], note="maxHedges<=2, P=0 (all time orders)")],
-    "thorough": [L2("ZZ_S09a_Hedge", 2, 1, params={"max_hedges": 2}, labels=["hedge:", "stats:", "events:"], time_limit_s=3000, note="maxHedges<=2, P=2, 1 delay injection")],
+              L2("ZZ_S09a_Hedge", 0, params={"max_hedges": 2}, labels=["hedge:", "stats:", "events:"], note="maxHedges<=2, P=0 (all time orders)"),
+              L2("ZZ_S09b_HedgePlacements", 0, labels=["hedge:", "events:"], note="Retry(Hedge), Timeout(Hedge), Fallback(Hedge); P=0 (all time orders)")],
+    "thorough": [L2("ZZ_S09a_Hedge", 2, params={"max_hedges": 2}, labels=["hedge:", "stats:", "events:"], time_limit_s=3000, note="maxHedges<=2, P=2")],
     "assumptions": ["when the hedge timer and an accepted result become ready at the same instant the coordinator's select may take either; an attempt launched in that tie is accepted (it must find itself cancelled)"],
 }
 PROPS["C08"] = {
@@ -126,8 +132,8 @@ PROPS["C08"] = {
               L2("ZZ_S08a_CancelRetry", 2, params={"src": 2}, labels=["cancel:", "retry:"], note="ExecutionResult.Cancel racing the retry loop; P=2"),
               L2("ZZ_S08b_CancelWaits", 1, labels=["cancel:"], note="context cancel / ExecutionResult.Cancel while a rate-limiter / bulkhead wait is in progress (retry outside resp. inside); P=1"),
               L2("ZZ_S08c_CancelHedge", 1, labels=["cancel:"], note="hedged execution (delay symbolic, matching / non-matching cancel conditions) cancelled through its context at a symbolic instant; P=1")],
-    "thorough": [L2("ZZ_S08a_CancelRetry", 3, 1, labels=["cancel:", "retry:"], time_limit_s=3000, note="all sources, P=3, 1 delay injection"),
-                 L2("ZZ_S08b_CancelWaits", 3, 1, labels=["cancel:"], note="P=3"), L2("ZZ_S08c_CancelHedge", 2, 1, labels=["cancel:"], note="P=2")],
+    "thorough": [L2("ZZ_S08a_CancelRetry", 3, labels=["cancel:", "retry:"], time_limit_s=3000, note="all sources, P=3"),
+                 L2("ZZ_S08b_CancelWaits", 3, labels=["cancel:"], note="P=3"), L2("ZZ_S08c_CancelHedge", 2, labels=["cancel:"], note="P=2")],
     "assumptions": ["cooperating functions take no virtual time, so 'promptly' is: the execution ends at the cancellation instant"],
 }
 PROPS["C04"] = {
@@ -175,7 +181,7 @@ PROPS["C13"] = {
                  FP("ZZ_H13d_BackoffStep", time_limit_s=3000, qtimeout_s=300, note="one backoff step, lastDelay and maxDelay symbolic<2^47, factor {1.5,2,3,10}"),
                  FP("ZZ_H13e_Clamp"), FP("ZZ_H13f_DelayFunc"),
                  FP("ZZ_H13g_Sequence", time_limit_s=3000, note="all 14 magnitudes"),
-                 L2("ZZ_S13h_RetryDelay", 2, 1, labels=["delay:", "events:", "retry:"], note="P=2, 1 delay injection")],
+                 L2("ZZ_S13h_RetryDelay", 2, labels=["delay:", "events:", "retry:"], note="P=2")],
     "assumptions": ["configuration magnitudes come from the stated grid (float multiplication of two symbolic operands is not decided by any installed solver within 300 s); random draws, elapsed time, delay-function values and the previous backoff delay are symbolic",
                     "float32 rounding of the delay (2^-22 relative) is tolerated where the code computes in float32"],
 }
